@@ -2,10 +2,10 @@
 # usage: seedtest.sh <seed-id> [tier]   apply /verif/seeded/<id>/patch.diff to /repo, run the property's check, undo
 id=$1; tier=${2:-quick}; prop=${3:-${id%%-*}}
 cd /verif
-if ! git -C /repo apply --check /verif/seeded/$id/patch.diff 2>/dev/null; then
-  if git -C /repo apply --3way --check /verif/seeded/$id/patch.diff 2>/dev/null; then :; else echo "$id: PATCH DOES NOT APPLY"; exit 3; fi
-fi
-git -C /repo apply /verif/seeded/$id/patch.diff || { echo "$id: apply failed"; exit 3; }
+# (patch_rebased.diff: the same change re-made against the tree after a fix: commit touched the same lines)
+patch=/verif/seeded/$id/patch.diff
+[ -f /verif/seeded/$id/patch_rebased.diff ] && patch=/verif/seeded/$id/patch_rebased.diff
+git -C /repo apply $patch || { echo "$id: PATCH DOES NOT APPLY"; exit 3; }
 out=$(timeout 3000 python3 bin/check $prop $tier 2>&1); rc=$?
 git -C /repo checkout -- . 
 echo "$id ($prop $tier): exit=$rc $(echo "$out" | grep -c '^VIOLATION') violation lines; $(echo "$out" | grep -m1 -A1 '^VIOLATION' | tail -1 | cut -c1-260)"
